@@ -2,7 +2,7 @@
 import os
 from collections import Counter
 
-from core import Scratch, Suite, call, key_token, nats, ret_str
+from core import Scratch, Suite, call, cms_bins, key_token, nats, ret_str
 from corr.bloom import STRATS, dbl_bits, make_universe, strategy
 
 KINDS = ["min", "min", "min", "mean", "meanmin", "hh", "st"]
@@ -123,7 +123,7 @@ class CMSSuite(Suite):
         return {"min": P.CountMinSketch, "mean": P.CountMeanSketch, "meanmin": P.CountMeanMinSketch, "hh": P.HeavyHitters, "st": P.StreamThreshold}[kind]
 
     def obs(self, kind, obj, ret):
-        d = {"ret": ret, "total": str(obj.elements_added), "bins": ints(obj._bins), "geom": f"{obj.width},{obj.depth}"}
+        d = {"ret": ret, "total": str(obj.elements_added), "bins": ints(cms_bins(obj)), "geom": f"{obj.width},{obj.depth}"}
         if kind == "hh":
             d["table"] = ";".join(f"{key_token(k)}={v}" for k, v in obj.heavy_hitters.items())
         elif kind == "st":
@@ -232,7 +232,7 @@ class CMSSuite(Suite):
                 res = call(fn, key, n)
                 if res[0] == "err":
                     D["err:" + res[1]] += 1
-                if any(v in (2**31 - 1, -(2**31)) for v in obj._bins):
+                if any(v in (2**31 - 1, -(2**31)) for v in cms_bins(obj)):
                     D["saturated-step"] += 1
                 out.append((f"cm.{op[0]} {h} {tok(h, key)} n={n} k={kind}", self.obs(kind, obj, ret_str(res))))
             elif op[0] == "chk":
